@@ -25,7 +25,7 @@ PROPERTY = 'C05'
 TECHNIQUE = 'symbolic execution of the real MPS sampling/cost path on z3-real selection coefficients: one path per precision assignment, exact bit-cost and probing-spec obligations per path'
 FUNCTIONS_ENCODED = ['MPSConv2d/MPSConv1d/MPSLinear.get_cost/get_modified_vars/out_features_eff', 'MPS.get_cost/_get_single_cost', 'MPSPerLayerQtz/MPSPerChannelQtz.sample_alpha_sm/out_features_eff/features_mask',
                      'STEArgmax', 'params_bit / ops_bit functions', 'MPS.summary (oracle input)', 'ModAttr/Flatten features calculators (MPS variants)']
-BOUNDS = {'quick': 'programs MD (plain, +dw, +two linear), ML, M1D; per-layer w=(2,8) a=(4,8); per-channel without and with the 0-bit option (C = 2 channels); metrics {params_bit, ops_bit} + probing spec',
+BOUNDS = {'quick': 'programs MD (plain, +dw, +two linear), ML, M1D; per-layer w=(2,8) a=(4,8); per-channel without and with the 0-bit option (C = 2 channels); metrics {params_bit, ops_bit} + probing spec; MR (weight-shared Conv1d head invoked at two resolutions: per-invocation MACs); cost after the coefficients are written into a used model',
           'thorough': 'MD with BN / pooling / 3 channels, MA (residual add), w tuples (2,4,8) and (8,2), a tuples (8,), (2,4,8)'}
 OUTSIDE = ['assignments in which every channel of some layer selects 0 bit (the layer disappears; MPS has no keep-alive)', 'soft (non one-hot) sampling: the statement is about eval / hard mode', 'mpic / ne16 latency (their exactness is relative to their own models, see C16)', 'float32 rounding of cost sums']
 ASSUMPTIONS = ['arg-max margin >= 0.05 between competing coefficients', 'the exact cost is recomputed from summary(), layer hyper-parameters and the program topology (alive inputs = producer channels whose selected precision is not 0)']
